@@ -658,7 +658,6 @@ func renderAtoms(as []Atom) string {
 	return sb.String()
 }
 
-
 // ---- binary string predicates lifted over tables (HasPrefix / HasSuffix / Contains of tokens)
 
 // tokTable returns (index term, table of interned IDs) describing a single-token string, or ok=false.
